@@ -25,8 +25,12 @@ from .convcommon import ConvContext, classify, ftok
 LEVEL_TEXT = ("Lean, for every input: == and != never let ConversionNotFound escape (Quantity.__eq__ answers NotImplemented: "
               "eqCore_no_notFound) and < likewise (ltCore_no_notFound; the reflected dunder then yields TypeError - C03 "
               "lt_incommensurable); converting across dimensions raises exactly ConversionNotFound and changes nothing; an assert "
-              "is a no-op under -O and otherwise passes or raises AssertionError only (cassert_off/on). That no AssertionError "
-              "escapes the PLANNER is false for the pinned code (known findings, by structural class); outside those classes the "
+              "is a no-op under -O and otherwise passes or raises AssertionError only (cassert_off/on). The PATH SEARCH "
+              "(_find_path_recursive/_reduce_dimension) is proved to end quietly: on every graph reached by unit operations and "
+              "dimensionally sound, size-consistent declarations, between units of one dimension it returns a path or the empty "
+              "list and raises nothing, with assertions on or off, and the model's recursion fuel is never exhausted "
+              "(findPath_total, path_search_never_raises: the bounded recursion of the model is the unbounded one of the code). "
+              "That no AssertionError escapes the factor-matching PLANNER is false for the pinned code (known findings, by structural class); outside those classes the "
               "claim rests on the kernel-evaluated family - identical outcomes with assertions on and off (family_dashO_same) - on "
               "differential execution of the model in both modes against python and python -O, and on the oracle.")
 LEVEL_NOTE = ("Partial: the planner is not proved assertion-free. ZeroDivisionError from float under/overflow of extreme prefixes "
@@ -38,6 +42,7 @@ THEOREMS = [
     "Measured.C07.ltCore_no_notFound", "Measured.C07.convert_incommensurable",
     "Measured.C03.lt_incommensurable", "Measured.C03.eq_incommensurable",
     "Measured.Obligations.family_dashO_same",
+    "Measured.findPath_total", "Measured.C07.path_search_never_raises",
 ]
 LEAN_TARGETS = ["Props.C07", "Obligations.C07"]
 QUICK = {"chunks": 3, "ops": 1200}
